@@ -8,7 +8,19 @@ Open Scope Z_scope.
 
 (** the time the driver checks on link [k] of component [c] for target time [t] *)
 Definition link_req (cs : composition) (st : state) (c k : nat) (inp : input) (t : Z) : option Z :=
+  link_dep cs st c k inp t.
+
+Lemma link_req_some cs st c k inp t lt :
+  link_req cs st c k inp t = Some lt ->
+  is_static_src cs (i_src inp) = false /\
+  sched_walk (i_chain inp) (s_link st c k) (init_of cs (i_src inp)) (ptime_of cs st (i_src inp)) false t = Some lt.
+Proof. unfold link_req, link_dep. destruct (is_static_src cs (i_src inp)); [discriminate|auto]. Qed.
+
+Lemma link_req_nonstatic cs st c k inp t :
+  is_static_src cs (i_src inp) = false ->
+  link_req cs st c k inp t =
   sched_walk (i_chain inp) (s_link st c k) (init_of cs (i_src inp)) (ptime_of cs st (i_src inp)) false t.
+Proof. unfold link_req, link_dep. now intros ->. Qed.
 
 (** [servedn n cs st c t]: every dependency of [c] for target time [t] can be served in state [st]:
     a time-stepped source has published at or beyond the time the link needs; a pull-based
@@ -34,13 +46,16 @@ Qed.
 Lemma link_req_mono cs st c k inp t1 t2 l2 :
   t1 <= t2 -> link_req cs st c k inp t2 = Some l2 ->
   exists l1, link_req cs st c k inp t1 = Some l1 /\ l1 <= l2.
-Proof. unfold link_req. apply sched_walk_mono. Qed.
+Proof.
+  intros Ht H. apply link_req_some in H. destruct H as [Hs H]. rewrite (link_req_nonstatic _ _ _ _ _ _ Hs).
+  eapply sched_walk_mono; eauto.
+Qed.
 
 Lemma link_req_mono_rev cs st c k inp t1 t2 l1 :
   t1 <= t2 -> link_req cs st c k inp t1 = Some l1 ->
   exists l2, link_req cs st c k inp t2 = Some l2 /\ l1 <= l2.
 Proof.
-  unfold link_req. intros Ht H.
+  intros Ht H. apply link_req_some in H. destruct H as [Hs H]. rewrite (link_req_nonstatic _ _ _ _ _ _ Hs).
   destruct (sched_walk (i_chain inp) (s_link st c k) (init_of cs (i_src inp)) (ptime_of cs st (i_src inp)) false t2)
     as [l2|] eqn:E.
   - destruct (sched_walk_mono _ _ _ _ _ _ _ _ Ht E) as [l1' [H1 H2]].
@@ -118,7 +133,7 @@ Lemma find_deps_from_complete cs st c tgt : forall ins k0 deps0,
 Proof.
   induction ins as [|x ins IH]; intros k0 deps0; simpl.
   - split; [intros o l H; exists l; split; [exact H|lia]|intros j inp lt Hj; destruct j; discriminate].
-  - set (deps1 := match sched_walk (i_chain x) (s_link st c k0) (init_of cs (i_src x)) (ptime_of cs st (i_src x)) false tgt with
+  - set (deps1 := match link_dep cs st c k0 x tgt with
                   | Some lt => if is_time cs (fst (i_src x))
                                then if s_time st (fst (i_src x)) <? lt then ins_dep (i_src x) lt deps0 else deps0
                                else ins_dep (i_src x) lt deps0
@@ -126,7 +141,7 @@ Proof.
     destruct (IH (S k0) deps1) as [IH1 IH2].
     assert (Keep : forall o l, In (o, l) deps0 -> exists l', In (o, l') deps1 /\ l <= l').
     { intros o l H. unfold deps1.
-      destruct (sched_walk _ _ _ _ _ _) as [lt|]; [|exists l; split; [exact H|lia]].
+      destruct (link_dep _ _ _ _ _ _) as [lt|]; [|exists l; split; [exact H|lia]].
       destruct (is_time cs (fst (i_src x))).
       - destruct (_ <? _); [apply ins_dep_keep; exact H|exists l; split; [exact H|lia]].
       - apply ins_dep_keep; exact H. }
@@ -135,6 +150,7 @@ Proof.
       destruct (IH1 o l1 H1) as [l2 [H2 L2]]. exists l2. split; [exact H2|lia].
     + intros j inp lt Hj Hr Hc. destruct j as [|j].
       * simpl in Hj. inversion Hj; subst x. rewrite Nat.add_0_r in Hr. unfold link_req in Hr.
+        fold (link_req cs st c k0 inp tgt) in Hr. unfold link_req in Hr.
         assert (exists l1, In (i_src inp, l1) deps1 /\ lt <= l1) as [l1 [H1 L1]].
         { unfold deps1. rewrite Hr. destruct Hc as [Hc|Hc].
           - rewrite Hc. apply ins_dep_new.
@@ -165,8 +181,7 @@ Lemma find_deps_from_sound cs st c tgt : forall ins k0 deps0 o l,
 Proof.
   induction ins as [|x ins IH]; intros k0 deps0 o l H; simpl in H; [left; exact H|].
   destruct (IH _ _ _ _ H) as [H1|[j [inp [Hj [Ho [Hr Hl]]]]]].
-  - destruct (sched_walk (i_chain x) (s_link st c k0) (init_of cs (i_src x)) (ptime_of cs st (i_src x)) false tgt)
-      as [lt|] eqn:E; [|left; exact H1].
+  - destruct (link_dep cs st c k0 x tgt) as [lt|] eqn:E; [|left; exact H1].
     assert (New : In (o, l) (ins_dep (i_src x) lt deps0) ->
                   (is_time cs (fst (i_src x)) = true -> s_time st (fst (i_src x)) < lt) ->
                   In (o, l) deps0 \/
@@ -449,7 +464,7 @@ Proof.
   induction n as [|n IH]; intros cs a b p t Ht Hl Hp H; [exact H|].
   intros k inp lt Hk Hr.
   assert (Hr' : link_req cs a p k inp t = Some lt).
-  { unfold link_req, ptime_of in *. rewrite (Hl p k Hp), Ht. exact Hr. }
+  { unfold link_req, link_dep, ptime_of in *. rewrite (Hl p k Hp), Ht. exact Hr. }
   destruct (H k inp lt Hk Hr') as [H1 H2]. split.
   - intros Ti. rewrite <- Ht. exact (H1 Ti).
   - intros Tp. apply (IH cs a b); [exact Ht|exact Hl|exact Tp|exact (H2 Tp)].
@@ -537,11 +552,18 @@ Proof.
           * apply upd2_other. congruence.
         + apply upd2_other; exact Hxy.
       - rewrite upd2_this. exact Lss. }
+    destruct (is_static_src cs src) eqn:Stat.
+    { (* static source: served for every time *)
+      inversion H; subst. split; [split; discriminate|exact F1]. }
+    assert (Hreq' : forall lt, sched_walk (i_chain inp) (s_link st c k) (init_of cs src) (ptime_of cs st src) false t = Some lt ->
+              (is_time cs (fst src) = true -> lt <= s_time st (fst src)) /\
+              (is_time cs (fst src) = false -> servedn n cs st (fst src) lt)).
+    { intros lt SW. apply Hreq. rewrite (link_req_nonstatic cs st c k inp t Stat). exact SW. }
     (* upper bound when the source is a time component *)
     assert (Up : is_time cs (fst src) = true -> r <= s_time st (fst src)).
     { intros Ti. rewrite Ti in Wsrc.
       destruct (sched_walk (i_chain inp) (s_link st c k) (init_of cs src) (ptime_of cs st src) false t) as [lt|] eqn:SW.
-      - rewrite (Act lt eq_refl). destruct (Hreq lt SW) as [H1 _]. exact (H1 Ti).
+      - rewrite (Act lt eq_refl). destruct (Hreq' lt eq_refl) as [H1 _]. exact (H1 Ti).
       - assert (Hc : cut_by_nodep (i_chain inp) = true) by (apply Cut; reflexivity).
         unfold ptime_of in PC, CutLe. rewrite Ti in PC.
         specialize (CutLe (s_time st (fst src)) t Hc Wsrc (Ilen c k inp Hk)).
@@ -566,7 +588,7 @@ Proof.
           - now rewrite (Act lt eq_refl).
           - assert (Hc : cut_by_nodep (i_chain inp) = true) by (apply Cut; reflexivity).
             rewrite (no_push_buf_not_cut _ Wsrc) in Hc. discriminate. }
-        destruct (Hreq r SW) as [_ Hs]. specialize (Hs Ti).
+        destruct (Hreq' r SW) as [_ Hs]. specialize (Hs eq_refl).
         set (Q := fun (_ : nat) (s : state) => (forall x, s_time s x = s_time st1 x) /\ (forall x y, s_link s x y = s_link st1 x y)).
         assert (Q1 : Q O st1) by (split; auto).
         destruct (pull_list_ok cs Q (fun k0 x s a => pull_input fuel cs s (fst src) k0 x r a) (fst src)
@@ -585,7 +607,7 @@ Proof.
            assert (Rq : req_ok n cs s1 (fst src) k1 x r).
            { intros lt Hlt.
              assert (Hlt' : link_req cs st (fst src) k1 x r = Some lt).
-             { unfold link_req, ptime_of in *. rewrite Ql, Qt in Hlt. unfold st1 in Hlt; simpl in Hlt.
+             { unfold link_req, link_dep, ptime_of in *. rewrite Ql, Qt in Hlt. unfold st1 in Hlt; simpl in Hlt.
                destruct F1 as [_ [Fl _]]. unfold st1 in Fl; simpl in Fl. rewrite (Fl (fst src) k1 (or_introl Ti)) in Hlt. exact Hlt. }
              destruct (Hs k1 x lt Hx Hlt') as [H1 H2]. split.
              - intros Tx. rewrite Qt. unfold st1; simpl. exact (H1 Tx).
@@ -655,7 +677,7 @@ Proof.
     assert (Rq : req_ok n cs s1 c k x nt).
     { intros lt Hlt.
       assert (Hlt' : link_req cs st c k x nt = Some lt).
-      { unfold link_req, ptime_of in *. rewrite Qt in Hlt. rewrite (Ql c k) in Hlt by (right; right; lia). exact Hlt. }
+      { unfold link_req, link_dep, ptime_of in *. rewrite Qt in Hlt. rewrite (Ql c k) in Hlt by (right; right; lia). exact Hlt. }
       destruct (Hs k x lt Hx Hlt') as [H1 H2]. split.
       - intros Tx. rewrite Qt. exact (H1 Tx).
       - intros Tx. apply (servedn_ext_P n cs st s1 (fst (i_src x)) lt);
@@ -1135,11 +1157,11 @@ Section NoCirc.
     assert (exists D, 0 <= D /\ lt <= Z.max (target_of cs st c tgt - D) (init_of cs (i_src inp)) /\
                       phi c + S_of cs c - D <= phi src) as [D [HD [Hlt Hphi]]].
     { destruct (suf_edge cs phi rank Suf c k inp Hk) as [Hc|[D [He Hp]]].
-      - exfalso. unfold link_req in Hr.
+      - exfalso. apply link_req_some in Hr; destruct Hr as [_ Hr].
         pose proof (sched_walk_none_iff (i_chain inp) (s_link st c k) (init_of cs (i_src inp)) (ptime_of cs st (i_src inp))
                       (target_of cs st c tgt) (Ilen c k inp Hk)) as [_ Hn]. rewrite (Hn Hc) in Hr. discriminate.
       - exists D. split; [eapply edge_delay_nonneg; eauto|]. split; [|exact Hp].
-        unfold link_req in Hr. eapply sched_walk_edge_bound; eauto. }
+        apply link_req_some in Hr; destruct Hr as [_ Hr]. eapply sched_walk_edge_bound; eauto. }
     pose proof (t0_le_init cs (i_src inp)) as Ht0.
     set (cur := chain_key cs c tgt) in *.
     set (nxt := chain_key cs src (if is_time cs src then 0 else lt)).
@@ -1169,7 +1191,7 @@ Section NoCirc.
           lia. }
         assert (Rk : (rank src < rank c)%nat).
         { destruct (suf_rank cs phi rank Suf c k inp Hk Tc Ts) as [Hc|R]; [|exact R].
-          exfalso. unfold link_req in Hr.
+          exfalso. apply link_req_some in Hr; destruct Hr as [_ Hr].
           pose proof (sched_walk_none_iff (i_chain inp) (s_link st c k) (init_of cs (i_src inp)) (ptime_of cs st (i_src inp))
                         (target_of cs st c tgt) (Ilen c k inp Hk)) as [_ Hn]. rewrite (Hn Hc) in Hr. discriminate. }
         intros e [<-|He].
@@ -1208,7 +1230,7 @@ Section NoCirc.
           -- split; [exact Nc|]. right. rewrite Fn, Fc. split; [exact Ts|]. split; [exact Vle|].
              destruct (is_time cs c) eqn:Tc; [left; reflexivity|right]. split; [reflexivity|].
              destruct (suf_rank cs phi rank Suf c k inp Hk Tc Ts) as [Hc|R]; [|exact R].
-             exfalso. unfold link_req in Hr.
+             exfalso. apply link_req_some in Hr; destruct Hr as [_ Hr].
              pose proof (sched_walk_none_iff (i_chain inp) (s_link st c k) (init_of cs (i_src inp)) (ptime_of cs st (i_src inp))
                            (target_of cs st c tgt) (Ilen c k inp Hk)) as [_ Hn]. rewrite (Hn Hc) in Hr. discriminate.
           -- destruct (AllN e He) as [Ne J]. split; [exact Ne|].
@@ -1217,7 +1239,7 @@ Section NoCirc.
              destruct Alt as [Te|[Te R]]; [left; exact Te|right]. split; [exact Te|].
              rewrite Fc in Pc, R.
              destruct (suf_rank cs phi rank Suf c k inp Hk Pc Ts) as [Hc|R']; [|fold src in R'; lia].
-             exfalso. unfold link_req in Hr.
+             exfalso. apply link_req_some in Hr; destruct Hr as [_ Hr].
              pose proof (sched_walk_none_iff (i_chain inp) (s_link st c k) (init_of cs (i_src inp)) (ptime_of cs st (i_src inp))
                            (target_of cs st c tgt) (Ilen c k inp Hk)) as [_ Hn]. rewrite (Hn Hc) in Hr. discriminate.
   Qed.
@@ -1274,7 +1296,7 @@ Definition und_cycle (cs : composition) (cyc : list nat) : Prop :=
   cyc <> [] /\
   forall c, In c cyc -> is_time cs c = true /\
     exists k inp, nth_error (c_inputs (getc cs c)) k = Some inp /\ all_pass (i_chain inp) = true /\
-                  In (fst (i_src inp)) cyc.
+                  is_static_src cs (i_src inp) = false /\ In (fst (i_src inp)) cyc.
 
 Lemma und_cycle_not_updated cs (W : wf cs) cyc T st acc fuel c chain tgt u st' acc' e :
   und_cycle cs cyc -> (forall x, In x cyc -> s_time st x = T) ->
@@ -1283,10 +1305,10 @@ Proof.
   intros [_ Hc] HT U Hu.
   destruct (update_rec_props fuel cs st acc c chain tgt) as [_ HB].
   destruct (HB _ _ _ _ U) as [Tu [_ [Su _]]].
-  destruct (Hc u Hu) as [_ [k [inp [Hk [Hp Hin]]]]].
+  destruct (Hc u Hu) as [_ [k [inp [Hk [Hp [Hns Hin]]]]]].
   destruct fuel as [|fuel]; [destruct Su|].
   assert (Hr : link_req cs st u k inp (next_time cs st u) = Some (next_time cs st u)).
-  { unfold link_req. apply sched_walk_all_pass; exact Hp. }
+  { rewrite (link_req_nonstatic _ _ _ _ _ _ Hns). apply sched_walk_all_pass; exact Hp. }
   destruct (Su k inp _ Hk Hr) as [H1 _].
   destruct (Hc _ Hin) as [Tsrc _]. specialize (H1 Tsrc).
   rewrite (HT _ Hin) in H1. pose proof (next_time_gt cs W st u Tu) as G. rewrite (HT u Hu) in G. lia.
